@@ -28,27 +28,27 @@ type sigInfo struct {
 }
 
 type Gen struct {
-	prog        *ssa.Program
-	pkgs        []*packages.Package
-	byPath      map[string]*packages.Package
-	ssaPkgs     map[string]*ssa.Package
-	contracts   map[string]*FuncContract // by key
-	allFC       []*FuncContract
-	ghosts      map[string]*GhostFunc // pkgPath + "." + name
-	lemmas      []*Lemma
-	sigs        map[*FuncContract]*sigInfo
-	fnOf        map[*FuncContract]*ssa.Function
-	fnIDs       map[string]int
-	globIDs     map[string]int
-	noEffectPat []string
-	inlinePat   []string
-	int64Ranges bool
-	repoDir     string
-	loadErrs    []string
-	files       []*ContractFile
-	strUF       bool
+	prog         *ssa.Program
+	pkgs         []*packages.Package
+	byPath       map[string]*packages.Package
+	ssaPkgs      map[string]*ssa.Package
+	contracts    map[string]*FuncContract // by key
+	allFC        []*FuncContract
+	ghosts       map[string]*GhostFunc // pkgPath + "." + name
+	lemmas       []*Lemma
+	sigs         map[*FuncContract]*sigInfo
+	fnOf         map[*FuncContract]*ssa.Function
+	fnIDs        map[string]int
+	globIDs      map[string]int
+	noEffectPat  []string
+	inlinePat    []string
+	int64Ranges  bool
+	repoDir      string
+	loadErrs     []string
+	files        []*ContractFile
+	strUF        bool
 	ghostGlobals map[string]*TypeExpr // pkgPath.name
-	immutables  [][3]string // pkgpath, type, field: struct fields never written after construction (assumed)
+	immutables   [][3]string          // pkgpath, type, field: struct fields never written after construction (assumed)
 }
 
 func loadGen(repoDir string, patterns []string, extDir string) (*Gen, error) {
@@ -186,6 +186,13 @@ func loadGen(repoDir string, patterns []string, extDir string) (*Gen, error) {
 				return g, fmt.Errorf("duplicate contract for %s (%s and %s)", fc.Key, old.SrcFile, fc.SrcFile)
 			}
 			g.contracts[fc.Key] = fc
+			if i := strings.Index(fc.Key, "["); i >= 0 {
+				if j := strings.LastIndex(fc.Key, "]"); j > i {
+					if _, clash := g.contracts[fc.Key[:i]+fc.Key[j+1:]]; !clash {
+						g.contracts[fc.Key[:i]+fc.Key[j+1:]] = fc
+					}
+				}
+			}
 			g.allFC = append(g.allFC, fc)
 		}
 	}
@@ -322,6 +329,9 @@ func (g *Gen) resolveContract(fc *FuncContract) error {
 			rt = s.X
 		}
 		if ix, ok := rt.(*ast.IndexExpr); ok { // generic receiver T[X]
+			rt = ix.X
+		}
+		if ix, ok := rt.(*ast.IndexListExpr); ok { // generic receiver T[X, Y]
 			rt = ix.X
 		}
 		id, ok := rt.(*ast.Ident)
@@ -547,6 +557,16 @@ func (g *Gen) contractFor(f *ssa.Function) *FuncContract {
 }
 
 func (g *Gen) contractForNames(names []string) *FuncContract {
+	// generic interfaces: also try the names without type arguments
+	var extra []string
+	for _, n := range names {
+		if i := strings.Index(n, "["); i >= 0 {
+			if j := strings.LastIndex(n, "]"); j > i {
+				extra = append(extra, n[:i]+n[j+1:])
+			}
+		}
+	}
+	names = append(append([]string{}, names...), extra...)
 	for _, n := range names {
 		if fc, ok := g.contracts[n]; ok {
 			return fc
